@@ -2460,7 +2460,9 @@ class TLSConnection(TLSRecordLayer):
             self._recordLayer.encryptThenMAC = True
 
         if settings.useExtendedMasterSecret:
-            if clientHello.getExtension(ExtensionType.extended_master_secret):
+            # RFC 7627 defines the extended master secret for TLS only
+            if clientHello.getExtension(ExtensionType.extended_master_secret)\
+                    and self.version > (3, 0):
                 extensions.append(TLSExtension().create(ExtensionType.
                                                         extended_master_secret,
                                                         bytearray(0)))
